@@ -398,6 +398,47 @@ func ruleC18(w *World) {
 				}
 			}
 		})
+		// several critical sections in one operation: the method's own acquire sites plus every call, made with the
+		// mutex not held, of a function of this type that (transitively) acquires it — what one section computed
+		// (the add) and what another observes (the reported `enough`) are not one atomic step
+		if isEntry(fn) || selfLocking(fn) {
+			var locksTrans func(f *ssa.Function, seen map[*ssa.Function]bool) bool
+			locksTrans = func(f *ssa.Function, seen map[*ssa.Function]bool) bool {
+				if f == nil || seen[f] || !inSet[f] {
+					return false
+				}
+				seen[f] = true
+				if locks[f] {
+					return true
+				}
+				r := false
+				instrsFlat(f, func(ins ssa.Instruction) {
+					if c, ok := ins.(ssa.CallInstruction); ok && locksTrans(c.Common().StaticCallee(), seen) {
+						r = true
+					}
+				})
+				return r
+			}
+			var extra []string
+			instrsFlat(fn, func(ins ssa.Instruction) {
+				c, ok := ins.(ssa.CallInstruction)
+				if !ok {
+					return
+				}
+				if _, isDefer := ins.(*ssa.Defer); isDefer {
+					return
+				}
+				if st, known := la.at[ins]; known && st != lkNone {
+					return // made inside a section: re-entry is reported below
+				}
+				if callee := c.Common().StaticCallee(); callee != nil && callee != fn && locksTrans(callee, map[*ssa.Function]bool{}) {
+					extra = append(extra, callee.Name())
+				}
+			})
+			if len(acq)+len(extra) > 1 {
+				w.viol("C18.R2", key+"/sections", fn.Pos(), fmt.Sprintf("operation is made of %d critical sections (%d own acquire site(s) + calls of locking methods %v with the mutex released in between): its effect and the values it returns are not one atomic step, so concurrent histories need not be linearizable", len(acq)+len(extra), len(acq), extra))
+			}
+		}
 		if !isEntry(fn) && !selfLocking(fn) {
 			w.check(len(acq) == 0, "C18.R2", key, fn.Pos(), "helper runs inside its caller's critical section and does not lock itself ("+lkName(la.entry[fn])+" on entry)", "helper "+fnKey(fn)+" acquires the mutex although it is called with the lock state "+lkName(la.entry[fn]))
 			continue
